@@ -252,6 +252,28 @@ pub fn run_schedule(script: &[(String, Msg)], prefix: &[Choice]) -> Exec {
     let mut queued: Vec<(String, Msg, Option<i32>)> = vec![];
     let mut last_choice: Option<Choice> = None;
 
+    // the loop (or a worker it spawned) has to report within 5 s of being handed something; if it
+    // does not, nothing in the system can move any more: a deadlock, the execution is abandoned
+    macro_rules! w {
+        ($l:lifetime) => {
+            match rx.recv_timeout(Duration::from_secs(5)) {
+                Ok(e) => e,
+                Err(_) => {
+                    x.log.push("no event from the loop for 5 s".to_string());
+                    x.deadlock = true;
+                    break $l;
+                }
+            }
+        };
+    }
+    macro_rules! nx {
+        ($l:lifetime) => {
+            match backlog.pop_front() {
+                Some(e) => e,
+                None => w!($l),
+            }
+        };
+    }
     'run: loop {
         let holders = workers.iter().filter(|w| !w.done && w.phase == 1).count();
         let mut enabled = vec![];
@@ -337,7 +359,7 @@ pub fn run_schedule(script: &[(String, Msg)], prefix: &[Choice]) -> Exec {
                     let (mut got_l, mut got_s) = (false, false);
                     let mut pend: Option<(String, u8, Sender<()>)> = None;
                     while !(got_l && got_s && pend.is_some()) {
-                        match wait(&rx) {
+                        match w!('run) {
                             Ev::LoopHandled(p) => {
                                 got_l = true;
                                 if p {
@@ -369,7 +391,7 @@ pub fn run_schedule(script: &[(String, Msg)], prefix: &[Choice]) -> Exec {
                     let msg = build_message(&m, 0, pos);
                     client.sender.send(msg).unwrap();
                     // the loop announces that it is about to ask for write access
-                    match wait(&rx) {
+                    match w!('run) {
                         Ev::LoopApplying => {}
                         _ => panic!("sched harness: expected LoopApplying"),
                     }
@@ -381,7 +403,7 @@ pub fn run_schedule(script: &[(String, Msg)], prefix: &[Choice]) -> Exec {
                         loop_pending = Some(name.clone());
                         x.log.push(format!("L:{} (delivered while a worker is computing)", name));
                     } else {
-                        match wait(&rx) {
+                        match w!('run) {
                             Ev::LoopHandled(p) => {
                                 x.log.push(format!("L:{} panicked={}", name, p));
                                 if p {
@@ -448,7 +470,7 @@ pub fn run_schedule(script: &[(String, Msg)], prefix: &[Choice]) -> Exec {
                 // did the last computing worker let go while the loop waits? then the loop finishes now
                 if loop_pending.is_some() && !workers.iter().any(|w| !w.done && w.phase == 1) {
                     let name = loop_pending.take().unwrap();
-                    let p = match next(&rx, &mut backlog) {
+                    let p = match nx!('run) {
                         Ev::LoopHandled(p) => p,
                         _ => panic!("sched harness: expected the pending notification to complete"),
                     };
@@ -465,7 +487,7 @@ pub fn run_schedule(script: &[(String, Msg)], prefix: &[Choice]) -> Exec {
                         let _ = qm;
                         let (mut got_l, mut got_s) = (false, rid.is_none());
                         while !(got_l && got_s) {
-                            match next(&rx, &mut backlog) {
+                            match nx!('run) {
                                 Ev::LoopHandled(p) => {
                                     got_l = true;
                                     if p {
@@ -492,7 +514,7 @@ pub fn run_schedule(script: &[(String, Msg)], prefix: &[Choice]) -> Exec {
                     // every worker spawned on the way is parked at its start
                     for id in fresh {
                         while !parked.contains_key(&id) {
-                            match next(&rx, &mut backlog) {
+                            match nx!('run) {
                                 Ev::Paused(pid, ph, r) => {
                                     parked.insert(pid, (ph, r));
                                 }
@@ -537,12 +559,22 @@ pub fn run_schedule(script: &[(String, Msg)], prefix: &[Choice]) -> Exec {
             client.sender.send(fmt_request(req_id, &k)).unwrap();
             let mut h = None;
             let mut got_l = false;
+            let mut stuck = false;
             while h.is_none() || !got_l {
-                match wait(&rx) {
-                    Ev::Spawned(_, hh) => h = Some(hh),
-                    Ev::LoopHandled(_) => got_l = true,
-                    _ => {}
+                match rx.recv_timeout(Duration::from_secs(5)) {
+                    Ok(Ev::Spawned(_, hh)) => h = Some(hh),
+                    Ok(Ev::LoopHandled(_)) => got_l = true,
+                    Ok(_) => {}
+                    Err(_) => {
+                        stuck = true;
+                        break;
+                    }
                 }
+            }
+            if stuck {
+                x.log.push(format!("the probe formatting({}) after quiescence got no answer within 5 s", k));
+                x.deadlock = true;
+                break;
             }
             let _ = h.unwrap().join();
             let mut got = None;
@@ -553,16 +585,18 @@ pub fn run_schedule(script: &[(String, Msg)], prefix: &[Choice]) -> Exec {
             }
             x.final_fmt.insert(k, got);
         }
-        req_id += 1;
-        client.sender.send(Message::Request(Request::new(req_id.into(), "shutdown".into(), ()))).unwrap();
-        loop {
-            if let Ev::Spawned(_, h) = wait(&rx) {
-                let _ = h.join();
-                break;
+        if !x.deadlock {
+            req_id += 1;
+            client.sender.send(Message::Request(Request::new(req_id.into(), "shutdown".into(), ()))).unwrap();
+            loop {
+                if let Ev::Spawned(_, h) = wait(&rx) {
+                    let _ = h.join();
+                    break;
+                }
             }
+            client.sender.send(Message::Notification(Notification::new("exit".into(), ()))).unwrap();
+            let _ = server.join();
         }
-        client.sender.send(Message::Notification(Notification::new("exit".into(), ()))).unwrap();
-        let _ = server.join();
     } else {
         // leave the stuck threads behind; the process-level horizon is the backstop
         drop(client);
